@@ -163,7 +163,9 @@ func Points(holder *Comp, pop []*Comp) []*Point {
 			idx := append(append([]int(nil), prefix...), i)
 			exported := f.PkgPath == ""
 			if f.Anonymous && f.Tag == "" && f.Type.Kind() == reflect.Struct {
-				walk(f.Type, idx, settable && exported)
+				// exported fields promoted through an embedded struct stay settable even when the
+				// embedded type's name is unexported (reflect's read-only flag of embedded fields is not sticky)
+				walk(f.Type, idx, settable)
 				continue
 			}
 			if !(settable && exported) {
